@@ -13,7 +13,7 @@ src = f"/tmp/seeded_out/{pid}/{x}"
 dst = f"/verif/seeded/{pid}-{x}"
 wt = f"/tmp/sw/{pid}{x}"
 run = lambda cmd, **kw: subprocess.run(cmd, shell=True, capture_output=True, text=True, **kw)
-meta = {"property": pid[:3], "variant": x, "round": 3 if pid.endswith("v3") else (2 if pid.endswith("v2") else 1)}
+meta = {"property": pid[:3], "variant": x, "round": int(pid[4]) if len(pid) > 4 and pid[3] == "v" else 1}
 notes = {}
 try:
     notes = json.load(open(f"{src}/notes.json"))
@@ -72,8 +72,19 @@ if meta.get("confirmed"):
             meta["checks"][c] = {"exit": o.returncode, "detected": o.returncode == 1 and bool(viol), "violation_lines": len(viol), "first": first, "wall_s": round(time.time() - t, 1)}
     finally:
         run(f"git -C /repo worktree remove --force {wt}")
+# a re-evaluation (after the checks were strengthened) must not overwrite the first-round record
+try:
+    old = json.load(open(f"{dst}/meta.json"))
+    if old.get("checks"):
+        meta["later_checks"] = meta["checks"]
+        meta["checks"] = old["checks"]
+    for k in ("status_after_fix", "current"):
+        if k in old:
+            meta[k] = old[k]
+except Exception:
+    pass
 meta["what_was_run"] = "tools/eval_seed.py: scratch worktree + tools/baseline.py (repo suite), demo.py with/without patch, then ./check <id> quick against a scratch worktree of /repo HEAD with the patch applied (VERIF_REPO), /repo itself untouched"
 json.dump(meta, open(f"{dst}/meta.json", "w"), indent=1)
 print(json.dumps({k: meta[k] for k in ("property", "variant", "confirmed", "repo_tests_ok", "demo_with_patch_exit", "demo_without_patch_exit", "applies_to_head") if k in meta}))
-for c, v in meta["checks"].items():
+for c, v in (meta.get("later_checks") or meta["checks"]).items():
     print(f"  {c}: {'DETECTED' if v['detected'] else 'MISSED'} exit={v['exit']} {v['first'][:200]}")
